@@ -202,14 +202,15 @@ impl C19 {
                 v.truncate = false;
             }
             // envelope S11: the contract's D stops within a step of one smallest unit and its
-            // divisions floor, so its D may be up to 2 units (at the pool's highest precision) away
+            // divisions floor, so its D may be up to 4 units (at the pool's highest precision; 2.75 were
+            // measured on a 4-asset pool, amp 1, skew exactly 1000:1) away
             // from the exact root. The quote is then the exact solution for such a D: on skewed,
             // low-amplification pools dy/dD reaches ~10, elsewhere it is below 1. Envelope = outside
-            // the band by at most 6 ask units (measured) or by what 2 units of D explain, whichever
+            // the band by at most 6 ask units (measured) or by what 4 units of D explain, whichever
             // is larger (+ the swap path's fixed-point slack on pools worth a fraction of a token).
             let six = &unit_j * 6u32 * &r + super::c03::fixed_point_slack(mx, &d);
             let beyond = if g > hi_b { &g - &hi_b } else if lo_b > g { &lo_b - &g } else { BigUint::zero() };
-            let two_d = &r * 2u32;
+            let two_d = &r * 4u32;
             let d_hi = &d + &two_d;
             let d_lo = if d > two_d { &d - &two_d } else { BigUint::zero() };
             let by_d = match (exact_out(&st, &xs, &d_hi, i, j, &lo_off), exact_out(&st, &xs, &d_lo, i, j, &hi_off)) {
@@ -316,11 +317,16 @@ impl Monitor for C19 {
                                     let sb = BigUint::from(supply(&post.bal, &p1.pool_info.lp_denom));
                                     let diff = if sb > lo { &sb - &lo } else { &lo - &sb };
                                     c.stats.bump("probe.c19.first_mint_checked_outside_range");
-                                    if &diff * BigUint::from(5_000u32) > lo.clone() + BigUint::from(320_000u64) {
+                                    // tolerance: 2 parts in 10^4, plus the granularity of the contract's integer
+                                    // divisions by the smallest reserve (each floors away up to 1/x of its value:
+                                    // with reserves of ~1500 units the minted total was seen 2.2 x 10^-4 off)
+                                    let min_units = BigUint::from(rs.iter().copied().min().unwrap_or(1).max(1));
+                                    let tol = &lo / BigUint::from(5_000u32) + &lo * BigUint::from(8u32) / &min_units + BigUint::from(64u32);
+                                    if diff > tol {
                                         let settles = contract_d_iteration_settles(&xs, amp);
                                         let mut v = viol(
                                             "C19.mint_invariant_grossly_wrong",
-                                            format!("first deposit {:?} (decimals {:?}, amp {amp}) minted total {sb} LP, exact invariant {lo}: off by more than two parts in ten thousand", rs, p1.pool_info.asset_decimals),
+                                            format!("first deposit {:?} (decimals {:?}, amp {amp}) minted total {sb} LP, exact invariant {lo}: off by more than two parts in ten thousand plus the integer granularity of the smallest reserve", rs, p1.pool_info.asset_decimals),
                                         );
                                         // envelope S14: the contract's own iteration runs out of its 255 rounds
                                         // (first deposits skewed by some 30 orders of magnitude) and the last
